@@ -10,8 +10,8 @@ from ..cfg import no_exc
 from ..report import Registry, chain, sub
 from ._helpers_rules_d import attr_store_nodes, call_nodes, callee_is, ends_with_name, guard_atom_set, qualname
 from .c32 import BOOKKEEPING, _is_tx, _tx_exprs, check_rollback_restores, declared_methods
-from ._helpers_rob_B2 import (bind_args, bool_binds, callee_simple_name, expand, helper_key_stores, is_bound_method, key_store_helpers, param_names,
-                              resolved_atom_set, single_binds)
+from ._helpers_rob_B2 import (bind_args, bool_binds, callee_simple_name, expand, guards_imply, helper_key_stores, is_bound_method, key_store_helpers,
+                              param_names, resolved_atom_set, resolved_guards, single_binds)
 
 R = Registry(
     "C33",
@@ -142,9 +142,12 @@ def r2(ctx):
     after_close = g.reachable(close, include_starts=False)
     ctx.check(not (set(rm) | set(conn_commit) | set(committed)) & after_close, f"{f.key}:close-last",
               "close() can run before the connection commits / snapshot removal", "nothing of the commit sequence follows close()", f.loc)
-    atoms = guard_atom_set(g, rm[0])
-    guards = [unparse(t) for t, pol in g.edge_guards(rm[0]) if pol]
-    good = any("self._parent is None" in x and "self.nested" in x for x in guards)
+    # the branch outcomes that dominate the call imply `_parent is None or nested` (however the condition is written: named
+    # as a local, inverted, split, or through the equivalent property _is_transaction_boundary)
+    rg = resolved_guards(g, f.node, rm[0], aliases=True)
+    guards = [("" if pol else "not ") + unparse(t) for t, pol in rg]
+    P, N_, B = "self._parent is None", "self.nested", "self._is_transaction_boundary"
+    good = guards_imply(rg, lambda e: e[P] or e[N_], axioms=lambda e: e[B] == (e[P] or e[N_]) and e["self._parent"] != e[P], extra_leaves=(P, N_, B, "self._parent")) is True
     ctx.check(good, f"{f.key}:remove-snapshot-at-boundary", f"_remove_snapshot() is not restricted to a transaction boundary (guards: {guards})",
               "only when _parent is None or nested", f.loc)
 
@@ -168,12 +171,12 @@ def r4(ctx):
             v = g.node(n).stmt.value
             if isinstance(v, ast.Call) and not v.args and not v.keywords and _short(dotted(v.func) or "") in ("WeakKeyDictionary", "dict"):
                 fresh.append(n)
-            elif isinstance(v, ast.Attribute) and v.attr == fld:
+            elif isinstance(v, ast.Attribute) and v.attr == fld and dotted(v.value) != "self":
                 alias.append(n)
             else:
                 other.append(n)
-        ok_fresh = bool(fresh) and all(("self._is_transaction_boundary", True) in guard_atom_set(g, n) for n in fresh)
-        ok_alias = all(("self._is_transaction_boundary", False) in guard_atom_set(g, n) for n in alias)
+        ok_fresh = bool(fresh) and all(("self._is_transaction_boundary", True) in resolved_atom_set(g, ts.node, n, aliases=True) for n in fresh)
+        ok_alias = all(("self._is_transaction_boundary", False) in resolved_atom_set(g, ts.node, n, aliases=True) for n in alias)
         # every normal exit binds the field
         w = g.must_pass([g.entry], [g.exit], nodes, edge_ok=no_exc)
         ctx.check(ok_fresh and ok_alias and not other and w is None, f"{ts.key}:{fld}",
@@ -274,7 +277,8 @@ class _Scope:
             if v is not None and isinstance(v, ast.Attribute) and v.attr == "_parent" and dotted(v.value) in self.selfs:
                 self.parents.add(n)
         self.parents |= {f"{x}._parent" for x in self.selfs}
-        self._bb = bool_binds(fn)
+        # boolean locals and plain attribute reads held in a local (`sess = self.session`, `expire_all = sess.expire_on_commit`)
+        self._bb = bool_binds(fn, aliases=True)
 
     def map_of(self, e):
         """('self' | 'parent', field) when `e` denotes a bookkeeping map of this transaction / of its parent (directly or
@@ -658,7 +662,11 @@ R.mutant("rollback-restore-only-on-success", SESSION,
          sub("                        transaction._state = SessionTransactionState.DEACTIVE\n                        self.session.dispatch.after_rollback(self.session)\n                    except:\n                        rollback_err = sys.exc_info()\n                    finally:\n                        transaction._state = SessionTransactionState.DEACTIVE\n                        transaction._restore_snapshot(\n                            dirty_only=transaction.nested\n                        )\n",
              "                        transaction._state = SessionTransactionState.DEACTIVE\n                        self.session.dispatch.after_rollback(self.session)\n                        transaction._restore_snapshot(\n                            dirty_only=transaction.nested\n                        )\n                    except:\n                        rollback_err = sys.exc_info()\n                    finally:\n                        transaction._state = SessionTransactionState.DEACTIVE\n"), "C33-R3")
 R.mutant("savepoint-shares-parent-dirty", SESSION, sub("        self._dirty = weakref.WeakKeyDictionary()\n", "        self._dirty = self._parent._dirty if self._parent else weakref.WeakKeyDictionary()\n"), "C33-R4")
-R.mutant("savepoint-release-forgets-key-switches", SESSION, sub("            parent._key_switches.update(self._key_switches)\n", ""), "C33-R4")
+_KS_MERGE = ("            for s, (oldkey, newkey) in self._key_switches.items():\n                if s in parent._key_switches:\n"
+             "                    oldkey = parent._key_switches[s][0]\n                parent._key_switches[s] = (oldkey, newkey)\n")
+_REL_OLD = ("            parent = self._parent\n            assert parent is not None\n            parent._new.update(self._new)\n"
+            "            parent._dirty.update(self._dirty)\n            parent._deleted.update(self._deleted)\n" + _KS_MERGE)
+R.mutant("savepoint-release-forgets-key-switches", SESSION, sub(_KS_MERGE, ""), "C33-R4")
 R.mutant("savepoint-release-merges-wrong-map", SESSION, sub("            parent._deleted.update(self._deleted)\n", "            parent._deleted.update(self._dirty)\n"), "C33-R4")
 R.mutant("close-event-before-relink", SESSION,
          sub("        self.session._transaction = self._parent\n\n        for connection, transaction, should_commit, autoclose in set(", "        self.session.dispatch.after_transaction_end(self.session, self)\n        self.session._transaction = self._parent\n\n        for connection, transaction, should_commit, autoclose in set("), "C33-R5")
@@ -669,18 +677,20 @@ R.mutant("benign-commit-log", SESSION, sub("            self._state = SessionTra
 R.mutant("benign-reorder-snapshot-fields", SESSION,
          sub("        self._new = weakref.WeakKeyDictionary()\n        self._deleted = weakref.WeakKeyDictionary()\n", "        self._deleted = weakref.WeakKeyDictionary()\n        self._new = weakref.WeakKeyDictionary()\n"), None)
 R.mutant("benign-rename-parent-local", SESSION,
-         sub("            parent = self._parent\n            assert parent is not None\n            parent._new.update(self._new)\n            parent._dirty.update(self._dirty)\n            parent._deleted.update(self._deleted)\n            parent._key_switches.update(self._key_switches)\n",
-             "            outer = self._parent\n            assert outer is not None\n            outer._dirty.update(self._dirty)\n            outer._new.update(self._new)\n            outer._deleted.update(self._deleted)\n            outer._key_switches.update(self._key_switches)\n"), None)
+         sub(_REL_OLD,
+             "            outer = self._parent\n            assert outer is not None\n            outer._dirty.update(self._dirty)\n            outer._new.update(self._new)\n            outer._deleted.update(self._deleted)\n"
+             "            for st_, (k0, k1) in self._key_switches.items():\n                if st_ in outer._key_switches:\n                    k0 = outer._key_switches[st_][0]\n                outer._key_switches[st_] = (k0, k1)\n"), None)
 
 # --- str-n: C33-R4 (composite merge) / R6 / R7 / R8
 # C33-R4 `_remove_snapshot:_key_switches:merge-keeps-original` and C33-R8 `rollback:inner-transactions` fire on the unchanged tree
 # (findings/C33_savepoint_release_overwrites_original_key.py, findings/C33_rollback_with_open_inner_savepoint.py); once fixed in /repo enable:
-# R.mutant("savepoint-release-blind-key-switch-merge", SESSION,
-#          sub("            for s, (oldkey, newkey) in self._key_switches.items():\n                if s in parent._key_switches:\n                    oldkey = parent._key_switches[s][0]\n                parent._key_switches[s] = (oldkey, newkey)\n",
-#              "            parent._key_switches.update(self._key_switches)\n"), "C33-R4")
-# R.mutant("rollback-closes-inner-savepoints", SESSION,
-#          sub("                if subtransaction.nested:\n                    # hand the bookkeeping of a still-open SAVEPOINT to its\n                    # parent so that the snapshot restored below covers it\n                    subtransaction._remove_snapshot()\n                subtransaction.close()\n",
-#              "                subtransaction.close()\n"), "C33-R8")
+# (both were findings on the unchanged tree, fixed in /repo since: 7134f99, 19283ee)
+R.mutant("savepoint-release-blind-key-switch-merge", SESSION, sub(_KS_MERGE, "            parent._key_switches.update(self._key_switches)\n"), "C33-R4")
+R.mutant("savepoint-release-merge-ignores-parent-entry", SESSION,
+         sub(_KS_MERGE, "            for s, (oldkey, newkey) in self._key_switches.items():\n                parent._key_switches[s] = (oldkey, newkey)\n"), "C33-R4")
+R.mutant("rollback-closes-inner-savepoints", SESSION,
+         sub("                if subtransaction.nested:\n                    # hand the bookkeeping of a still-open SAVEPOINT to its\n                    # parent so that the snapshot restored below covers it\n                    subtransaction._remove_snapshot()\n                subtransaction.close()\n",
+             "                subtransaction.close()\n"), "C33-R8")
 _KS_OLD = ("                    if state in trans._key_switches:\n                        orig_key = trans._key_switches[state][0]\n                    else:\n                        orig_key = state.key\n")
 R.mutant("key-switch-forgets-original-key", SESSION, sub(_KS_OLD, "                    orig_key = state.key\n"), "C33-R4")
 R.mutant("key-switch-original-from-wrong-map", SESSION,
@@ -688,22 +698,25 @@ R.mutant("key-switch-original-from-wrong-map", SESSION,
 R.mutant("benign-key-switch-rename-local", SESSION,
          chain(sub(_KS_OLD, "                    first_key = state.key\n                    if state in trans._key_switches:\n                        first_key = trans._key_switches[state][0]\n"),
                sub("                    trans._key_switches[state] = (\n                        orig_key,\n                        instance_key,\n                    )\n", "                    trans._key_switches[state] = (first_key, instance_key)\n")), None)
-_RK_OLD = ("            # we probably can do this conditionally based on\n            # if we expunged or not, but safe_discard does that anyway\n            self.session.identity_map.safe_discard(s)\n\n"
-           "            # restore the old key\n            s.key = oldkey\n\n")
+_RK_DISC = ("            # we probably can do this conditionally based on\n            # if we expunged or not, but safe_discard does that anyway\n            self.session.identity_map.safe_discard(s)\n\n")
+_RK_IF = "            if s not in to_expunge and s.session_id == self.session.hash_key:\n"
+_RK_REST = ("            # restore the old key and the object, but only if we didn't\n            # expunge; an expunged object is transient and has no key\n"
+            + _RK_IF + "                s.key = oldkey\n                self.session.identity_map.replace(s)\n")
+_RK_OLD = _RK_DISC + _RK_REST
 R.mutant("seed-restore-rekeys-before-discard", SESSION,
-         sub(_RK_OLD, "            # restore the old key\n            s.key = oldkey\n\n            self.session.identity_map.safe_discard(s)\n\n"), "C33-R6")
+         sub(_RK_OLD, _RK_IF + "                s.key = oldkey\n\n            self.session.identity_map.safe_discard(s)\n\n" + _RK_IF + "                self.session.identity_map.replace(s)\n"), "C33-R6")
 R.mutant("restore-replace-before-rekey", SESSION,
-         sub("            # restore the old key\n            s.key = oldkey\n\n            # now restore the object, but only if we didn't expunge\n            if s not in to_expunge:\n                self.session.identity_map.replace(s)\n",
-             "            # now restore the object, but only if we didn't expunge\n            if s not in to_expunge:\n                self.session.identity_map.replace(s)\n\n            # restore the old key\n            s.key = oldkey\n"), "C33-R6")
-R.mutant("restore-no-discard-of-switched-key", SESSION, sub(_RK_OLD, "            # restore the old key\n            s.key = oldkey\n\n"), "C33-R6")
+         sub(_RK_OLD, _RK_DISC + _RK_IF + "                self.session.identity_map.replace(s)\n                s.key = oldkey\n"), "C33-R6")
+R.mutant("restore-no-discard-of-switched-key", SESSION, sub(_RK_OLD, _RK_REST), "C33-R6")
 R.mutant("register-persistent-discard-after-rekey", SESSION,
          chain(sub("                    # map (see test/orm/test_naturalpks.py ReversePKsTest)\n                    self.identity_map.safe_discard(state)\n", "                    # map (see test/orm/test_naturalpks.py ReversePKsTest)\n"),
                sub("                    state.key = instance_key\n\n                # there can be an existing state", "                    state.key = instance_key\n                    self.identity_map.safe_discard(state)\n\n                # there can be an existing state")), "C33-R6")
 R.mutant("benign-restore-log-between-discard-and-rekey", SESSION,
-         sub(_RK_OLD, "            self.session.identity_map.safe_discard(s)\n            _prev = newkey\n\n            s.key = oldkey\n\n"), None)
+         sub(_RK_OLD, "            self.session.identity_map.safe_discard(s)\n            _prev = newkey\n\n" + _RK_IF + "                s.key = oldkey\n                self.session.identity_map.replace(s)\n"), None)
 R.mutant("benign-restore-rename-loop-var", SESSION,
-         sub("        for s, (oldkey, newkey) in self._key_switches.items():\n" + _RK_OLD + "            # now restore the object, but only if we didn't expunge\n            if s not in to_expunge:\n                self.session.identity_map.replace(s)\n",
-             "        for st_, (k_old, k_new) in self._key_switches.items():\n            imap = self.session.identity_map\n            imap.safe_discard(st_)\n            st_.key = k_old\n            if st_ not in to_expunge:\n                self.session.identity_map.replace(st_)\n"), None)
+         sub("        for s, (oldkey, newkey) in self._key_switches.items():\n" + _RK_OLD,
+             "        for st_, (k_old, k_new) in self._key_switches.items():\n            imap = self.session.identity_map\n            imap.safe_discard(st_)\n"
+             "            if st_ in to_expunge or st_.session_id != self.session.hash_key:\n                continue\n            st_.key = k_old\n            self.session.identity_map.replace(st_)\n"), None)
 _FL_OLD = "        if not is_begin and not self.session._flushing:\n            self.session.flush()\n"
 R.mutant("seed-savepoint-flush-only-with-autoflush", SESSION,
          sub(_FL_OLD, "        if (\n            not is_begin\n            and self.session.autoflush\n            and not self.session._flushing\n        ):\n            self.session.flush()\n"), "C33-R7")
@@ -723,3 +736,74 @@ R.mutant("prepare-only-prepares-inner", SESSION,
          sub("            for subtransaction in stx._iterate_self_and_parents(upto=self):\n                subtransaction.commit()\n", "            for subtransaction in stx._iterate_self_and_parents(upto=self):\n                subtransaction._prepare_impl()\n"), "C33-R8")
 R.mutant("benign-prepare-rename-inner-loop-var", SESSION,
          sub("            for subtransaction in stx._iterate_self_and_parents(upto=self):\n                subtransaction.commit()\n", "            for inner in stx._iterate_self_and_parents(upto=self):\n                _o = inner.origin\n                inner.commit()\n"), None)
+
+# ---------------------------------------------------------------------- rob-B2: behaviour-preserving refactorings that must stay silent
+# (families of benign/rfB_8, rfB_15 and further ones), and breaking edits made THROUGH the same shapes that must still fire
+_MERGE_HELPER_HEAD = "    @_StateChange.declare_states(\n        (SessionTransactionState.ACTIVE,), _StateChangeStates.NO_CHANGE\n    )\n    def _connection_for_bind(\n"
+
+
+def _merge_helper(body: str):
+    """_remove_snapshot's savepoint arm extracted into a helper method with the given body."""
+    return chain(sub(_REL_OLD, "            parent = self._parent\n            assert parent is not None\n            self._merge_snapshot_into(parent)\n"),
+                 sub(_MERGE_HELPER_HEAD, "    def _merge_snapshot_into(self, parent: SessionTransaction) -> None:\n" + body + "\n" + _MERGE_HELPER_HEAD))
+
+
+_MERGE_BODY = ("        parent._new.update(self._new)\n        parent._dirty.update(self._dirty)\n        parent._deleted.update(self._deleted)\n\n"
+               "        parent_key_switches = parent._key_switches\n        for state, (oldkey, newkey) in self._key_switches.items():\n"
+               "            if state in parent_key_switches:\n                original_key = parent_key_switches[state][0]\n            else:\n                original_key = oldkey\n"
+               "            parent_key_switches[state] = (original_key, newkey)\n")
+R.mutant("benign-release-merge-in-helper-with-alias", SESSION, _merge_helper(_MERGE_BODY), None)
+R.mutant("release-helper-forgets-dirty", SESSION, _merge_helper(_MERGE_BODY.replace("        parent._dirty.update(self._dirty)\n", "")), "C33-R4")
+R.mutant("release-helper-blind-key-switch-merge-via-alias", SESSION,
+         _merge_helper("        parent._new.update(self._new)\n        parent._dirty.update(self._dirty)\n        parent._deleted.update(self._deleted)\n"
+                       "        parent_key_switches = parent._key_switches\n        parent_key_switches.update(self._key_switches)\n"), "C33-R4")
+R.mutant("release-helper-merges-into-itself", SESSION, _merge_helper(_MERGE_BODY.replace("        parent._deleted.update(self._deleted)\n", "        self._deleted.update(self._deleted)\n")), "C33-R4")
+R.mutant("benign-release-merge-ternary-and-get", SESSION,
+         sub(_KS_MERGE, "            merged = parent._key_switches\n            for s, (oldkey, newkey) in self._key_switches.items():\n"
+                        "                first = merged[s][0] if s in merged else oldkey\n                merged[s] = (first, newkey)\n"), None)
+# the root-commit arm written with an early return and a named condition
+_ROOT_OLD = ("        if not self.nested:\n            if self.session.expire_on_commit:\n                for s in self.session.identity_map.all_states():\n"
+             "                    s._expire(s.dict, self.session.identity_map._modified)\n\n            statelib.InstanceState._detach_states(\n"
+             "                list(self._deleted), self.session\n            )\n            self._deleted.clear()\n        elif self.nested:\n" + _REL_OLD)
+_ROOT_NEW = ("        if self.nested:\n" + _REL_OLD + "            return\n\n        sess = self.session\n        expire_all = sess.expire_on_commit\n        if expire_all:\n"
+             "            for s in sess.identity_map.all_states():\n                s._expire(s.dict, sess.identity_map._modified)\n\n"
+             "        gone = list(self._deleted)\n        statelib.InstanceState._detach_states(gone, sess)\n        self._deleted.clear()\n")
+R.mutant("benign-remove-snapshot-early-return-and-locals", SESSION, sub(_ROOT_OLD, _ROOT_NEW), None)
+R.mutant("remove-snapshot-early-return-detach-only-when-expiring", SESSION,
+         sub(_ROOT_OLD, _ROOT_NEW.replace("        gone = list(self._deleted)\n        statelib.InstanceState._detach_states(gone, sess)\n",
+                                          "        gone = list(self._deleted)\n        if expire_all:\n            statelib.InstanceState._detach_states(gone, sess)\n")), "C33-R4")
+# _take_snapshot with the boundary test named and the arms swapped
+_TS_OLD = ("        if not self._is_transaction_boundary:\n            parent = self._parent\n            assert parent is not None\n            self._new = parent._new\n"
+           "            self._deleted = parent._deleted\n            self._dirty = parent._dirty\n            self._key_switches = parent._key_switches\n            return\n\n")
+R.mutant("benign-take-snapshot-named-boundary", SESSION,
+         sub(_TS_OLD, "        at_boundary = self._is_transaction_boundary\n        if not at_boundary:\n            outer = self._parent\n            assert outer is not None\n            self._new = outer._new\n"
+                      "            self._deleted = outer._deleted\n            self._dirty = outer._dirty\n            self._key_switches = outer._key_switches\n            return\n\n"), None)
+# commit(): the boundary condition held in a local / written negatively
+_CB_OLD = "        if self._parent is None or self.nested:\n            for conn, trans, should_commit, autoclose in set("
+R.mutant("benign-commit-boundary-named", SESSION, sub(_CB_OLD, "        outermost = self._parent is None\n        if outermost or self.nested:\n            for conn, trans, should_commit, autoclose in set("), None)
+R.mutant("benign-commit-boundary-property", SESSION, sub(_CB_OLD, "        if self._is_transaction_boundary:\n            for conn, trans, should_commit, autoclose in set("), None)
+R.mutant("commit-boundary-named-but-always-true", SESSION,
+         sub(_CB_OLD, "        outermost = self._parent is None\n        if outermost or self.nested or not self.nested:\n            for conn, trans, should_commit, autoclose in set("), "C33-R2")
+# PK switch of _register_persistent extracted into a helper (benign/rfB_15), and the same with the order broken inside / around it
+_SW_OLD = ("                    # primary key switch. use safe_discard() in case another\n                    # state has already replaced this one in the identity\n"
+           "                    # map (see test/orm/test_naturalpks.py ReversePKsTest)\n                    self.identity_map.safe_discard(state)\n"
+           "                    trans = self._transaction\n                    assert trans is not None\n" + _KS_OLD +
+           "                    trans._key_switches[state] = (\n                        orig_key,\n                        instance_key,\n                    )\n                    state.key = instance_key\n")
+_SW_HEAD = "    def _register_altered(self, states: Iterable[InstanceState[Any]]) -> None:\n"
+_SW_RECORD = ("        trans = self._transaction\n        assert trans is not None\n        key_switches = trans._key_switches\n        if state in key_switches:\n"
+              "            orig_key = key_switches[state][0]\n        else:\n            orig_key = state.key\n        key_switches[state] = (orig_key, instance_key)\n")
+
+
+def _switch_helper(call: str, body: str):
+    return chain(sub(_SW_OLD, call), sub(_SW_HEAD, "    def _switch_identity_key(self, state: InstanceState[Any], instance_key: Any) -> None:\n" + body + "\n" + _SW_HEAD))
+
+
+_SW_CALL = "                    self._switch_identity_key(state, instance_key)\n"
+R.mutant("benign-key-switch-in-helper", SESSION, _switch_helper(_SW_CALL, "        self.identity_map.safe_discard(state)\n" + _SW_RECORD + "        state.key = instance_key\n"), None)
+R.mutant("benign-key-switch-in-helper-caller-discards", SESSION,
+         _switch_helper("                    self.identity_map.safe_discard(state)\n" + _SW_CALL, _SW_RECORD + "        state.key = instance_key\n"), None)
+R.mutant("key-switch-helper-discards-after-store", SESSION, _switch_helper(_SW_CALL, _SW_RECORD + "        state.key = instance_key\n        self.identity_map.safe_discard(state)\n"), "C33-R6")
+R.mutant("key-switch-helper-nobody-discards", SESSION, _switch_helper(_SW_CALL, _SW_RECORD + "        state.key = instance_key\n"), "C33-R6")
+R.mutant("key-switch-helper-forgets-original-key", SESSION,
+         _switch_helper(_SW_CALL, "        self.identity_map.safe_discard(state)\n        trans = self._transaction\n        assert trans is not None\n        key_switches = trans._key_switches\n"
+                                  "        key_switches[state] = (state.key, instance_key)\n        state.key = instance_key\n"), "C33-R4")
